@@ -4,7 +4,7 @@ From BV Require Import Base.Prelude Model.Block Model.ForkDB Model.Forkable Mode
   Model.Burst Model.Hub Model.CursorResolver Model.Joining
   Spec.Consumer Spec.Universe Check.Burst_Check Check.C07_Check Spec.C06_Spec Spec.C07_Spec Spec.C09_Spec Spec.C13_Spec
   Spec.C07_Compose_Spec Spec.C07_Shapes_Spec Spec.C07_More_Spec Spec.C13_More_Spec
-  Proofs.C07_Shapes Proofs.C13_More Proofs.C07_FiltersTarget Properties.C07_Compose Properties.C07_More.
+  Proofs.C07_Shapes Proofs.C13_More Proofs.C07_FiltersTarget Proofs.C07_FiltersCursor Properties.C07_Compose Properties.C07_More.
 Local Open Scope N_scope.
 
 (* every filter, stop block, mode, world, schedule: the three shapes of the raw sequence of a run and what the handler
@@ -28,6 +28,11 @@ Print Assumptions c13_stop_over_raw.
 Theorem c13_stop_target : C13_stop_target.
 Proof. exact c13_stop_target_proof. Qed.
 Print Assumptions c13_stop_target.
+
+(* ... and in cursor mode (the stop block a block of the chain beyond the cursor block) *)
+Theorem c13_stop_cursor : C13_stop_cursor_holds.
+Proof. exact c13_stop_cursor_holds_proof. Qed.
+Print Assumptions c13_stop_cursor.
 
 (* ---- non-vacuity: the runs of Properties/C07_More.v end with stop-block-reached in number, cursor and target-cursor mode *)
 Example c13_more_nonvacuous :
